@@ -44,6 +44,7 @@ class ClassInfo:
         self.bases = [ast.unparse(b) for b in node.bases]
         self.methods = {}
         self.class_attrs = {}
+        self.nested = {}
         self.slots = None
 
     @property
@@ -83,6 +84,10 @@ class Repo:
                         fi = FuncInfo(m, '%s.%s' % (node.name, sub.name), sub, cls=ci)
                         ci.methods[sub.name] = fi
                         self.functions[fi.name] = fi
+                    elif isinstance(sub, ast.ClassDef):
+                        nci = ClassInfo(m, '%s.%s' % (node.name, sub.name), sub)
+                        self.classes[nci.name] = nci
+                        ci.nested[sub.name] = nci
                     elif isinstance(sub, ast.Assign) and len(sub.targets) == 1 and isinstance(sub.targets[0], ast.Name):
                         ci.class_attrs[sub.targets[0].id] = sub.value
                         if sub.targets[0].id == '__slots__':
